@@ -73,6 +73,19 @@ def expected_attr(p, v, stored):
     return value_equal(stored, v)
 
 
+def some_groupby(checks):
+    """some check of the list has a groupby"""
+    if isinstance(checks, ImmSeq):
+        j = z3.Int(cur().fresh_name("j"))
+        r = SBool(z3.Exists([j], z3.And(j >= 0, j < checks.n.z, SO.gb(checks.eq, j))))
+        for x in checks.appended:
+            r = Or(r, attr(x, "groupby") is not None)
+        return r
+    if isinstance(checks, (list, ListObj)):
+        return Or(False, *[(attr(x, "groupby") is not None) if isinstance(x, Obj) else True for x in checks])
+    return True
+
+
 class ArrayValidateAttributes(Contract):
     """ArraySchema._validate_attributes: raises SchemaInitError only - and only for a groupby check on a component
     that does not allow groupby, or a PydanticModel dtype -, writes nothing."""
@@ -103,20 +116,35 @@ class ArrayValidateAttributes(Contract):
         dt = attr(self_, "_dtype")
         pyd = isinstance(dt, Obj) and dt.cls is not None and issubclass(dt.cls, pandas_engine.PydanticModel)
         allow = issubclass(self_.cls, Column)
-        checks = attr(self_, "checks")
-        if isinstance(checks, ImmSeq):
-            j = z3.Int(cur().fresh_name("j"))
-            some_groupby = SBool(z3.Exists([j], z3.And(j >= 0, j < checks.n.z, SO.gb(checks.eq, j))))
-            for x in checks.appended:
-                some_groupby = Or(some_groupby, attr(x, "groupby") is not None)
-        elif isinstance(checks, (list, ListObj)):
-            some_groupby = Or(False, *[(attr(x, "groupby") is not None) if isinstance(x, Obj) else True for x in checks])
-        else:
-            some_groupby = True
-        return Or(pyd, And(not allow, some_groupby))
+        return Or(pyd, And(not allow, some_groupby(attr(self_, "checks"))))
 
     def on_raise(self, exc, old, self_):
         return {"schema_init_error_only_for_groupby_on_index_or_pydantic_dtype": self._may_raise(self_)}
+
+    def ensures(self, result, old, self_):
+        # a component that does not allow groupby and passed has no groupby check (class invariant of Index)
+        from pandera.api.pandas.components import Column
+
+        if issubclass(self_.cls, Column):
+            return {}
+        return {"an_index_that_passes_has_no_groupby_check": Not(some_groupby(attr(self_, "checks")))}
+
+    @property
+    def loops(self):
+        def invariant(I, fr, k, phase):
+            from pandera.api.pandas.components import Column
+
+            o = fr.locals["self"]
+            checks = attr(o, "checks")
+            if issubclass(o.cls, Column) or not isinstance(checks, ImmSeq):
+                return {}
+            j = z3.Int(cur().fresh_name("j"))
+            kz = k.z if isinstance(k, core.SNum) else z3.IntVal(k)
+            return {"no_groupby_check_so_far": SBool(z3.ForAll([j], z3.Implies(z3.And(j >= 0, j < kz), z3.Not(SO.gb(checks.eq, j)))))}
+
+        from pyvc.spec import LoopSpec
+
+        return {0: LoopSpec(invariant=invariant)}
 
 
 def _init_contract(target, cls_path, extra_kwargs=()):
@@ -172,6 +200,68 @@ PandasColumnInit = _init_contract(f"{PD}:Column.__init__", f"{PD}:Column")
 PolarsColumnInit = _init_contract(f"{PL_}:Column.__init__", f"{PL_}:Column")
 
 
+IndexInit = _init_contract("pandera.api.dataframe.components:ComponentSchema.__init__", f"{PD}:Index")
+
+
+class MultiIndexInit(Contract):
+    """MultiIndex.__init__ establishes the class invariant the container methods rely on: `indexes` is the given list
+    and `columns[name of level]` is a Column carrying the level's dtype, checks, nullable and unique, every other Column
+    parameter at its default, named by its key ("indexes: list of Index validators for each level")."""
+
+    target = f"{PD}:MultiIndex.__init__"
+    raises = (SchemaInitError,)
+    use_contracts = ("ArrayValidateAttributes", "ValidateColumns")
+
+    def setup(self, I):
+        SO.install_engine_dtype(I)
+
+    def make_args(self):
+        from pandera.api.pandas.components import Index, MultiIndex
+
+        levels = ListObj([SO.make_component(Index, f"indexes[{i}]", lab, "index") for i, lab in enumerate(["i", "j"])])
+        levels.pre = True
+        levels.name = "indexes"
+        return {"self": Obj(MultiIndex, "new", pre=False), "indexes": levels, "coerce": T.fresh_value(T.Bool, "coerce"),
+                "strict": T.fresh_value(T.Bool, "strict"), "name": T.fresh_value(T.Any, "name"), "ordered": T.fresh_value(T.Bool, "ordered"),
+                "unique": T.fresh_value(T.OneOf(None, T.Str, T.Lazy(lambda n: ListObj(["i", "j"]))), "unique")}
+
+    def call_target(self, I, fn, a):
+        return I.call(fn, [a["self"], a["indexes"]], {k: a[k] for k in ("coerce", "strict", "name", "ordered", "unique")})
+
+    def ensures(self, result, old, self_, indexes, coerce, strict, name, ordered, unique):
+        from pandera.api.pandas.components import Column
+
+        out = {"keeps_the_levels": attr(self_, "indexes") is indexes}
+        cols = attr(self_, "columns")
+        out["one_column_per_level_in_order"] = isinstance(cols, dict) and list(cols.keys()) == ["i", "j"] and all(
+            isinstance(c, Obj) and c.cls is Column for c in cols.values())
+        if not out["one_column_per_level_in_order"]:
+            return out
+        dflt = SO.ctor_defaults(Column)
+        mirrored = {"dtype": "_dtype", "checks": "checks", "nullable": "nullable", "unique": "unique"}
+        for p in ctor_params(Column):
+            conj = []
+            for lab, lv in zip(["i", "j"], indexes):
+                got = attr(cols[lab], SO.STORED_AS.get(p, p))
+                if p in mirrored:
+                    conj.append(value_equal(got, attr0(lv, mirrored[p]), at_entry=True))
+                elif p == "name":
+                    conj.append(py_eq(got, lab))
+                elif p == "parsers":
+                    conj.append(isinstance(got, list) and not isinstance(got, ImmSeq) and len(got) == 0)
+                else:
+                    conj.append(got is dflt[p] or py_eq(got, dflt[p]) is True)
+            out[f"columns_mirror_levels.{p}"] = And(*conj)
+        for p, v in (("_coerce", coerce), ("strict", strict), ("name", name), ("ordered", ordered)):
+            out[f"stores_{p}"] = value_equal(attr(self_, p), v)
+        u = attr(self_, "_unique")  # "unique: a list of index names that should be jointly unique" (a single name is wrapped)
+        out["stores_unique"] = (isinstance(u, list) and len(u) == 1 and py_eq(u[0], unique)) if isinstance(unique, core.SStr) else (u is unique)
+        return out
+
+    def on_raise(self, exc, old, **a):
+        return {}
+
+
 def _properties_contract(target, cls_path):
     cls = _cls(cls_path)
     params = ctor_params(cls)
@@ -179,6 +269,9 @@ def _properties_contract(target, cls_path):
     class Properties(Contract):
         """`properties` is the dict a column is rebuilt from: one key per constructor parameter, mapped to the
         attribute that parameter initialises; the receiver is not written; the dict is a fresh object."""
+
+        def setup(self, I):
+            SO.install_engine_dtype(I)
 
         def make_args(self):
             return {"self": SO.make_component(cls, "self", T.fresh_value(T.Opt(T.Str), "name"))}
@@ -215,6 +308,9 @@ def _set_name_contract(target, cls_path):
     class SetName(Contract):
         """set_name: the receiver gets the new name, keeps every other attribute, and is returned."""
 
+        def setup(self, I):
+            SO.install_engine_dtype(I)
+
         def make_args(self):
             return {"self": SO.make_component(cls, "self", T.fresh_value(T.Opt(T.Str), "old_name")), "name": T.fresh_value(T.Str, "name")}
 
@@ -248,6 +344,9 @@ class UpdateChecks(Contract):
 
     target = "pandera.api.dataframe.components:ComponentSchema.update_checks"
     split = {"method": ["update_checks", "set_checks"], "cls": [f"{PD}:Column", f"{PD}:Index", f"{PL_}:Column"]}
+
+    def setup(self, I):
+        SO.install_engine_dtype(I)
 
     def make_args(self):
         cls = _cls(self.arg("cls", T.Any))
@@ -309,6 +408,6 @@ def properties_cover_constructor():
     return recs
 
 
-CONTRACTS = [ArrayValidateAttributes, PandasColumnInit, PolarsColumnInit, PandasColumnProperties, PolarsColumnProperties,
+CONTRACTS = [ArrayValidateAttributes, PandasColumnInit, PolarsColumnInit, IndexInit, MultiIndexInit, PandasColumnProperties, PolarsColumnProperties,
              PandasSetName, PolarsSetName, UpdateChecks]
 STRUCTURAL = [properties_cover_constructor]
